@@ -27,7 +27,7 @@ THEOREMS = [
     'C19_lookup', 'C19_frame', 'C19_other_scopes', 'C19_reject_atomic', 'C19_reject_untyped',
     'C19_accept_typed', 'C19_stored_typed', 'C19_stored_set_canonical', 'C19_reset',
     'C19_duration_iso', 'C19_memory_str', 'C19_json_value', 'C19_json_roundtrip',
-    'C19_set_insert', 'C19_set_remove',
+    'C19_set_insert', 'C19_set_remove', 'C19_insert_limit', 'C19_object_set_limit',
 ]
 IMPL = os.path.join(lib.VERIF, 'harness', 'impl', 'c19_impl.py')
 GEN_DIR = os.path.join(lib.COQ, 'theories', 'C19')
@@ -642,6 +642,60 @@ def small_scope(spec):
     return out
 
 
+def boundary(spec, setting, mk, limit=128, real=False):
+    """histories that reach MAX_CONFIG_SET_SIZE through every path, on the object set `setting`
+    (mk(i) = payload of the i-th distinct object, canon(i) its canonical stored form is not needed:
+    acceptance / rejection labels only):
+      * limit+2 INSERTs of distinct objects at one scope (the crossing step is an INSERT);
+      * SET of limit-1 / limit / limit+1 objects;
+      * SET limit; filtered RESET of one; INSERT; INSERT (the second must be rejected);
+      * INSERT up to the limit in one scope does not affect another scope."""
+    names = [s['n'] for s in spec['settings']]
+    out = []
+
+    def case(ops):
+        out.append({'spec': spec, 'ops': ops, 'q': [setting, 'nope'], 'ql': True})
+    for sc in (['INSTANCE'] if real else ['INSTANCE', 'SESSION']):
+        case([['ADD', sc, setting, mk(i), ['a'] if i < limit else ['x']] for i in range(limit + 2)])
+    for n in (limit - 1, limit, limit + 1):
+        case([['SET', 'DATABASE', setting, [mk(i) for i in range(n)], ['A'] if n <= limit else ['x']]])
+    case([['SET', 'INSTANCE', setting, [mk(i) for i in range(limit)], ['A']],
+          ['REM', 'INSTANCE', setting, mk(5)],
+          ['ADD', 'INSTANCE', setting, mk(limit + 1), ['a']],
+          ['ADD', 'INSTANCE', setting, mk(limit + 2), ['x']],
+          ['ADD', 'DATABASE', setting, mk(limit + 2), ['a']]])
+    case([['SET', 'INSTANCE', setting, [mk(i) for i in range(limit - 2)], ['A']]]
+         + [['ADD', 'INSTANCE', setting, mk(limit + i), ['a'] if i < 2 else ['x']] for i in range(4)]
+         + [['ADD', 'INSTANCE', setting, mk(3), ['x']]])       # full AND conflicting
+    return out
+
+
+def boundary_scalar(spec, setting, elems, canon, limit=128):
+    out = []
+    for n in (limit - 1, limit, limit + 1):
+        items = [elems(i) for i in range(n)]
+        lab = ['v', '{' + ','.join(sorted(canon(i) for i in range(n))) + '}'] if n <= limit else ['x']
+        out.append({'spec': spec, 'ops': [['SET', 'SESSION', setting, items, lab],
+                                          ['SET', 'SESSION', setting, items + [elems(0)] * 3, lab],   # duplicates do not count
+                                          ['ADD', 'SESSION', setting, elems(0)]],
+                    'q': [setting, 'nope']})
+    return out
+
+
+def boundary_cases(S1, SR):
+    out = []
+    out += boundary(S1, 'providers', lambda i: {'d': [['name', f'n{i}']]})
+    out += boundary(S1, 'ports', lambda i: {'d': [['protocol', 'http'], ['database', f'db{i}'], ['port', 1000 + i],
+                                                   ['concurrency', 1], ['user', 'u'], ['address', [f'h{i}']]]})[:3]
+    out += boundary_scalar(S1, 'ints', lambda i: i, lambda i: f'i{i}')
+    out += boundary_scalar(S1, 'strs', lambda i: f's{i}', lambda i: canon_str(f's{i}'))
+    if SR is not None:
+        out += boundary(SR, 'email_providers',
+                        lambda i: {'d': [['_tname', 'cfg::SMTPProviderConfig'], ['name', f'n{i}']]}, real=True)[:4]
+        out += boundary_scalar(SR, 'multiprop', lambda i: f's{i}', lambda i: canon_str(f's{i}'))[:3]
+    return out
+
+
 def catalogue(rnd, spec):
     """one op of every opcode x scope for every setting with a fixed payload catalogue"""
     out = []
@@ -679,6 +733,7 @@ def gen_cases(tier, tr, SR=None):
     S1, S2 = spec_main(tr), spec_exotic(tr)
     cases = corpus()
     ncorp = len(cases)
+    cases += boundary_cases(S1, SR)            # both tiers: MAX_CONFIG_SET_SIZE reached through every path
     cases += small_scope(S1)
     cases += catalogue(rnd, S1) + catalogue(rnd, S2)
     nv, nm, nx = (6000, 2500, 1000) if tier == "quick" else (90000, 30000, 15000)
@@ -1288,7 +1343,8 @@ def run(tier):
         'rule': 'operation sequences (1..10 ops, thorough also up to 40) over synthetic specs that contain every '
                 'setting kind (bool/int/str/float/enum/duration/memory, single and set-valued, object sets with '
                 'exclusive fields, inheritance and nested objects, a single object setting, a secret setting): '
-                'corpus; every sequence of <=3 ops over {SET v1, SET v2, SET invalid, RESET} x 3 scopes on two scalar '
+                'corpus; boundary histories that reach MAX_CONFIG_SET_SIZE through INSERT (130 INSERTs of distinct objects), SET of '
+                '127/128/129 objects or elements, SET 128 + filtered RESET + INSERT + INSERT, on synthetic and real specs; every sequence of <=3 ops over {SET v1, SET v2, SET invalid, RESET} x 3 scopes on two scalar '
                 'settings; a one-op catalogue (every setting x opcode x payload catalogue); seeded random '
                 'mostly-valid sequences; a malformed stream (wrong opcode for the kind, junk payloads, unknown '
                 'names); an exotic-spec stream. non-trivial = >=2 ops on one setting of which >=2 succeeded and '
